@@ -92,7 +92,7 @@ pub fn c17(args: &Args) {
     let mut out = Shards::create(&dir, "babai", args.num("--shards", 12) as usize);
     let mut rng = rng_for(seed, "c17");
     let lim: i64 = (1 << 24) - 1;
-    let reps = if thorough { 30 } else { 2 };
+    let reps = if thorough { 80 } else { 2 };
     for w in 1..=10usize {
         let n = 1usize << w;
         let sigma = 1.17 * (12289.0 / (2.0 * n as f64)).sqrt();
